@@ -34,6 +34,8 @@ META = {
            "setup": {"channel width": 30, "medium": "water"}},
     "m2": {"user": {"my key": 4.5, "flag": True, "name": "peter"},
            "imaging": {"pixel size": "0.5", "frame rate": 3000}},
+    # the recording software's own version string
+    "sv": {"setup": {"software version": "ShapeIn 2.0.1"}},
 }
 # documented types of the keys used above
 TYPES = {
@@ -128,6 +130,7 @@ class WriterDriver(explore.Driver):
         st.next = 0
         st.model = {"feats": {}, "logs": {}, "tables": {}, "meta": {}}
         st.err = []
+        st.metas = {}
         st.closed = False
         st.dump = None
         st.chunk_old = writer.CHUNK_SIZE_BYTES
@@ -159,6 +162,7 @@ class WriterDriver(explore.Driver):
                 (["TABLE", "ta", "rec"], 0), (["TABLE", "ta", "dict"], 1),
                 (["TABLE", "tb", "mixed"], 0),
                 (["META", "m0"], 0), (["META", "m1"], 0), (["META", "m2"], 0),
+                (["META", "sv"], 1),
                 (["REOPEN", "append"], 0), (["REOPEN", "replace"], 0),
                 (["REOPEN", "reset"], 1)]
         return out
@@ -231,11 +235,17 @@ class WriterDriver(explore.Driver):
                     mdl["tables"][name] = var
             elif kind == "META":
                 var = op[1]
-                meta = META[var]
-                if meta is None:
-                    meta = gen.complete_meta(0, fl=True)
-                hw.store_metadata(meta)
-                self._model_meta(st, meta)
+                import copy
+                # The same dictionary object is handed to the writer every
+                # time (as a caller with a metadata template would do); the
+                # model works from the pristine template.
+                if var not in st.metas:
+                    st.metas[var] = copy.deepcopy(META[var]) if META[var] \
+                        is not None else gen.complete_meta(0, fl=True)
+                pristine = copy.deepcopy(META[var]) if META[var] \
+                    is not None else gen.complete_meta(0, fl=True)
+                hw.store_metadata(st.metas[var])
+                self._model_meta(st, pristine)
             elif kind == "REOPEN":
                 n = self._count(st)
                 hw.__exit__(None, None, None)
